@@ -1,6 +1,8 @@
 """C05 – messages and handler formats follow Python's own str.format semantics (DESIGN §4 C05)."""
 import datetime as pydt
 import itertools
+import json
+import os
 import string
 import types
 import _string
@@ -518,6 +520,52 @@ def check_message(ctx, impl, t, args, kwargs, stream, colors):
     return False
 
 
+def check_emit(ctx, impl, extra, t, dynamic, colorize, raw, msg, margs):
+    """direct oracle for one handler format: emitted text == Python's format_map over the record"""
+    log = impl.logger.bind(**extra)
+    saved, impl.logger = impl.logger, log
+    try:
+        got, rec = impl.emit(t, dynamic, colorize, msg, args=margs, raw=raw)
+    finally:
+        impl.logger = saved
+    full = t if dynamic else t + "\n{exception}"
+    rep = {"stream": "emit", "format": t, "dynamic": dynamic, "colorize": colorize, "raw": raw, "message": msg,
+           "margs": list(margs)}
+    if got[0] == "adderr":
+        ctx.stat("emit:add_refused")
+        fake = {"message": "m", "level": types.SimpleNamespace(name="INFO", no=20, icon="i"), "extra": extra,
+                "exception": "", "time": pydt.datetime(2020, 1, 1), "elapsed": pydt.timedelta(0), "name": "n",
+                "function": "f", "line": 1, "module": "m", "file": types.SimpleNamespace(name="f", path="p"),
+                "process": types.SimpleNamespace(id=1, name="p"), "thread": types.SimpleNamespace(id=1, name="t")}
+        py = res_of(lambda: full.format_map(fake))
+        if py[0] == "ok" or got[1] != "ValueError":
+            ctx.violation("add(format=%r) raised %s but Python formats the template" % (t, got[1]),
+                          dict(rep, expected=list(py), observed=list(got)))
+        return got
+    if raw:
+        expm = msg.format(*margs) if margs else msg
+        if got != ("ok", expm):
+            ctx.violation("opt(raw=True) with handler format %r emitted %r instead of the bare message %r" % (t, got, expm),
+                          dict(rep, expected=["ok", expm], observed=list(got)))
+        return got
+    if rec is None:
+        # the logging call raised: Python's format_map must raise the same class on the same record
+        rec2 = _probe_record(impl, extra, msg, margs)
+        py = res_of(lambda: full.format_map(rec2))
+        ctx.stat("emit:raised:" + got[1])
+        if not same_failure(got, py, t if dynamic else full):
+            ctx.violation("handler format %r: logging raised %r, Python's format_map gives %r" % (t, got, py),
+                          dict(rep, expected=list(py), observed=list(got)))
+        return got
+    rec2 = dict(rec)
+    rec2["exception"] = ""
+    py = res_of(lambda: full.format_map(rec2))
+    if py != got:
+        ctx.violation("handler format %r (dynamic=%r colorize=%r): emitted %r, Python's format_map gives %r"
+                      % (t, dynamic, colorize, got, py), dict(rep, expected=list(py), observed=list(got)))
+    return got
+
+
 def real_case_from_replay(r):
     """rebuild the arguments of a replay from the deterministic generator state"""
     rng = core.Rng(0)
@@ -567,6 +615,24 @@ def _run(ctx, rng, drv, boost, impl):
         check_message(ctx, impl, t, args, kwargs, "corpus", False)
         if colors:
             check_message(ctx, impl, t, args, kwargs, "corpus", True)
+
+    # corpus files (minimised past disagreements)
+    cdir = os.path.join(core.VERIF, "corpus", PROP)
+    extra0 = {"k": "v1", "n": 42, "o": Pt(), "w": 9}
+    for fn in sorted(os.listdir(cdir)) if os.path.isdir(cdir) else []:
+        if not fn.endswith(".json"):
+            continue
+        for c in json.load(open(os.path.join(cdir, fn), encoding="utf8")).get("cases", []):
+            ctx.stat("corpus_file_cases")
+            if "template" in c:
+                args = [eval(a, {"datetime": pydt}) for a in c["args"]]
+                kwargs = {k: eval(v, {"datetime": pydt}) for k, v in c["kwargs"].items()}
+                ctx.case(("corpusfile", c["template"], c.get("colors")), nontrivial=True)
+                check_message(ctx, impl, c["template"], args, kwargs, "corpus", bool(c.get("colors")))
+            else:
+                ctx.case(("corpusfile", c["format"], c.get("dynamic"), c.get("raw")), nontrivial=True)
+                check_emit(ctx, impl, extra0, c["format"], bool(c.get("dynamic")), bool(c.get("colorize")),
+                           bool(c.get("raw")), "hello {x}", ())
 
     lines, expect = [], []   # correspondence lines and (kind, payload, python-side canonical text)
 
@@ -621,7 +687,8 @@ def _run(ctx, rng, drv, boost, impl):
     for i in range(n2):
         k = rng.below(10)
         t = gen_template(rng, "named", ["message", "level", "extra"], 0, maxdepth=3, lits=[l for l in LITS if "<" not in l]) \
-            if k < 7 else gen_adversarial(rng).replace("<", "(")
+            if k < 7 else gen_adversarial(rng)
+        t = t.replace("<", "(")      # markup-free: no '<' at all (a malformed field may turn a spec into literal text)
         got = impl.prepare_format(t)
         ctx.case(("prep", t), nontrivial=nontrivial(t))
         ctx.stat("prepare_format:" + got[0])
@@ -653,7 +720,7 @@ def _run(ctx, rng, drv, boost, impl):
         mode = rng.choice(["auto", "manual", "named", "mixed", "auto", "manual"])
         t = gen_template(rng, mode, kws or ["a"], nargs, maxdepth=3, lits=[l for l in LITS if "<" not in l]) \
             if not rng.chance(12) else gen_adversarial(rng).replace("<", "(")
-        t = t.replace("!a", "!s")
+        t = t.replace("!a", "!s").replace("<", "(")     # markup-free: no '<' at all
         if not ascii_only_digits(t):
             continue
         args = [Sym("@%d" % j) for j in range(nargs)]
@@ -725,7 +792,7 @@ def _run(ctx, rng, drv, boost, impl):
             ctx.stat("real:record=True")
 
     # ---- stream 5: handler formats over the record: the four formatting branches and raw
-    n5 = ctx.n(1200, 40000) * boost
+    n5 = ctx.n(1200, 25000) * boost
     extra = {"k": "v1", "n": 42, "o": Pt(), "w": 9}
     for i in range(n5):
         t = gen_record_format(rng)
@@ -737,51 +804,11 @@ def _run(ctx, rng, drv, boost, impl):
         margs = ()
         if rng.chance(20):
             msg, margs = "v={}", (rng.below(100),)
-        log = impl.logger.bind(**extra)
-        saved, impl.logger = impl.logger, log
-        try:
-            got, rec = impl.emit(t, dynamic, colorize, msg, args=margs, raw=raw)
-        finally:
-            impl.logger = saved
         ctx.case(("emit", t, dynamic, colorize, raw, msg), nontrivial=nontrivial(t))
         ctx.stat("emit:%s%s%s" % ("dynamic" if dynamic else "static", "+colorize" if colorize else "", "+raw" if raw else ""))
-        full = t if dynamic else t + "\n{exception}"
-        rep = {"stream": "emit", "format": t, "dynamic": dynamic, "colorize": colorize, "raw": raw, "message": msg,
-               "margs": list(margs)}
-        if got[0] == "adderr":
-            ctx.stat("emit:add_refused")
-            fake = {"message": "m", "level": types.SimpleNamespace(name="INFO", no=20, icon="i"), "extra": extra,
-                    "exception": "", "time": pydt.datetime(2020, 1, 1), "elapsed": pydt.timedelta(0), "name": "n",
-                    "function": "f", "line": 1, "module": "m", "file": types.SimpleNamespace(name="f", path="p"),
-                    "process": types.SimpleNamespace(id=1, name="p"), "thread": types.SimpleNamespace(id=1, name="t")}
-            py = res_of(lambda: full.format_map(fake))
-            if py[0] == "ok" or got[1] != "ValueError":
-                ctx.violation("add(format=%r) raised %s but Python formats the template" % (t, got[1]),
-                              dict(rep, expected=list(py), observed=list(got)))
-            continue
-        if raw:
-            expm = msg.format(*margs) if margs else msg
-            if got != ("ok", expm):
-                ctx.violation("opt(raw=True) with handler format %r emitted %r instead of the bare message %r" % (t, got, expm),
-                              dict(rep, expected=["ok", expm], observed=list(got)))
-            continue
-        if rec is None:
-            # the logging call raised: Python's format_map must raise the same class on the same record
-            rec2 = _probe_record(impl, extra, msg, margs)
-            py = res_of(lambda: full.format_map(rec2))
-            ctx.stat("emit:raised:" + got[1])
-            if not same_failure(got, py, t if dynamic else full):
-                ctx.violation("handler format %r: logging raised %r, Python's format_map gives %r" % (t, got, py),
-                              dict(rep, expected=list(py), observed=list(got)))
-            continue
-        rec2 = dict(rec)
-        rec2["exception"] = ""
-        py = res_of(lambda: full.format_map(rec2))
-        if py != got:
-            ctx.violation("handler format %r (dynamic=%r colorize=%r): emitted %r, Python's format_map gives %r"
-                          % (t, dynamic, colorize, got, py), dict(rep, expected=list(py), observed=list(got)))
+        got = check_emit(ctx, impl, extra, t, dynamic, colorize, raw, msg, margs)
         if i < 2:
-            ctx.sample({"stream": "emit", "format": t, "dynamic": dynamic, "colorize": colorize, "emitted": got[1][:120]})
+            ctx.sample({"stream": "emit", "format": t, "dynamic": dynamic, "colorize": colorize, "emitted": str(got[1])[:120]})
 
     # exception suffix: the text ends with the formatted exception, after the terminator
     for t in ("{message}", "[{level}] {message} {{x}}", ""):
@@ -827,7 +854,7 @@ def _run(ctx, rng, drv, boost, impl):
                           {"stream": "markup", "format": tm, "plain": plain, "dynamic": dynamic, "expected": list(py), "observed": list(got)})
 
     # ---- stream 6: end-to-end emit against the model on a symbolic record (patched record entries)
-    n6 = ctx.n(1000, 30000) * boost
+    n6 = ctx.n(1000, 20000) * boost
     symkeys = ["name", "function", "module", "file", "line", "process", "thread", "time", "elapsed", "extra"]
 
     def patch(r):
@@ -836,7 +863,7 @@ def _run(ctx, rng, drv, boost, impl):
 
     for i in range(n6):
         t = gen_template(rng, "named" if not rng.chance(10) else "mixed", symkeys, 0, maxdepth=3,
-                         lits=[l for l in LITS if "<" not in l]).replace("!a", "!r")
+                         lits=[l for l in LITS if "<" not in l]).replace("!a", "!r").replace("<", "(")
         if not ascii_only_digits(t) or any(n.split(".")[0].split("[")[0] in ("message", "level", "exception")
                                            for _l, n, _s in fields_at(t)):
             continue
@@ -893,11 +920,13 @@ def _jsonable(p):
 
 
 def _probe_record(impl, extra, msg, margs):
-    """the record of an equivalent logging call (taken through a '{message}' handler)"""
+    """the record an equivalent logging call would carry: taken from a harmless call through the
+    '{message}' handler, with the message Python itself computes"""
     impl.got.clear()
-    impl.logger.bind(**extra).info(msg, *margs)
+    impl.logger.bind(**extra).info("probe")
     rec = dict(impl.got[0].record)
     rec["exception"] = ""
+    rec["message"] = msg.format(*margs) if margs else msg
     return rec
 
 
@@ -949,7 +978,28 @@ def _replay(ctx, r, impl):
             got, exp = list(g), list(res_of(lambda: t.format_map(env)))
             if exp[0] == "err":
                 exp = got
-    elif st in ("emit", "markup", "emit-exc", "emitsym"):
+    elif st == "emit":
+        class Collect:
+            def __init__(self):
+                self.v = []
+            def violation(self, what, rep, key=None, kind="oracle"):
+                self.v.append(what)
+            def stat(self, *a, **k):
+                pass
+            def case(self, *a, **k):
+                pass
+        col = Collect()
+        extra = {"k": "v1", "n": 42, "o": Pt(), "w": 9}
+        g = check_emit(col, impl, extra, r["format"], r.get("dynamic", False), r.get("colorize", False), r.get("raw", False),
+                       r.get("message", "hello"), tuple(r.get("margs", ())))
+        print("format=%r dynamic=%r colorize=%r raw=%r message=%r" % (r["format"], r.get("dynamic"), r.get("colorize"),
+                                                                      r.get("raw"), r.get("message")))
+        print("implementation:", g)
+        for w in col.v:
+            print("oracle:", w)
+        print("REPRODUCED" if col.v else "not reproduced")
+        return 1 if col.v else 0
+    elif st in ("markup", "emit-exc", "emitsym"):
         extra = {"k": "v1", "n": 42, "o": Pt(), "w": 9}
         saved = impl.logger
         impl.logger = saved.bind(**extra)
